@@ -282,15 +282,29 @@ class Compiler:
         sub = Compiler(self.asm, env2, self.methods, prefix=self.prefix + prefix2 + self.asm.tmp('f')[1:] + '.')
         params = [a.arg for a in fn.args.args if a.arg != 'self']
         defaults = fn.args.defaults
+        cargs = list(call.args)
+        if cargs and isinstance(cargs[0], ast.Name) and cargs[0].id == 'self' and fn.args.args and fn.args.args[0].arg == 'self':
+            cargs = cargs[1:]                 # Class.method(self, ...) called explicitly
         vals = {}
         for i, p in enumerate(params):
-            if i < len(call.args):
-                vals[p] = self.value(call.args[i])
+            if i < len(cargs):
+                a = cargs[i]
+                if isinstance(a, ast.Name) and a.id in self.consts:
+                    sub.consts[p] = self.consts[a.id]          # a scenario constant handed on
+                    continue
+                if isinstance(a, ast.Constant) and (a.value is None or isinstance(a.value, (bool, int))):
+                    sub.consts[p] = a.value
+                    continue
+                vals[p] = self.value(a)
             else:
                 di = i - (len(params) - len(defaults))
                 if di < 0:
                     raise Unsupported('missing argument %s' % p)
-                vals[p] = self.expr(defaults[di])
+                d = defaults[di]
+                if isinstance(d, ast.Constant) and (d.value is None or isinstance(d.value, (bool, int))):
+                    sub.consts[p] = d.value
+                else:
+                    vals[p] = self.expr(d)
         for k in call.keywords:
             vals[k.arg] = self.value(k.value)
         for p, v in vals.items():
@@ -298,6 +312,7 @@ class Compiler:
         rv = dst or self.asm.tmp('rv')
         end = self.asm.label('ret')
         sub.ret_stack.append((rv, end))
+        sub.finally_stack = ()
         self.asm.emit('set', rv, ('const', 0))
         sub.block(fn.body)
         self.asm.place(end)
